@@ -58,10 +58,12 @@ type (
 		IDs   *[]uint64       `json:"ids"`
 	}
 	verifC02Pop struct {
-		Name     string             `json:"name"`
-		Files    [][]verifC02Stream `json:"files"`
-		Tags     []verifC02Tag      `json:"tags"`
-		Searches []verifC02SearchCase   `json:"searches"`
+		Name     string               `json:"name"`
+		Files    [][]verifC02Stream   `json:"files"`
+		Tags     []verifC02Tag        `json:"tags"`
+		Searches []verifC02SearchCase `json:"searches"`
+		// sleep between parsing the tag definitions and running the searches (known finding tag-inline-reftime)
+		TagDelayMS int `json:"tagdelay_ms"`
 	}
 	verifC02Cases struct {
 		Base int64         `json:"base"` // unix seconds
@@ -238,6 +240,9 @@ func TestVerifC02(t *testing.T) {
 			fmt.Fprintf(w, "BUILDFAIL %s\n", fail)
 			w.Flush()
 			continue
+		}
+		if pop.TagDelayMS > 0 {
+			time.Sleep(time.Duration(pop.TagDelayMS) * time.Millisecond)
 		}
 		if mw != nil {
 			verifC02DumpPop(mw, pi, base, readers)
